@@ -134,6 +134,28 @@ def main(tier, seed):
             cases.append((fn, list(l), x, r))
             if r != ("ret", oracle(fn, l, x)):
                 direct_bad.append((fn, list(l), x, r, oracle(fn, l, x)))
+    # 2b. the answer depends on the CONTENTS of the list alone: one list object refilled in place between calls (same length, other
+    # contents), and short-lived lists whose storage the interpreter hands out again
+    buf, n_reused = [], 0
+    for l, x in exhaustive_scope():
+        if len(l) < 2 or (tier == "quick" and n_reused >= 60000):
+            continue
+        buf[:] = l
+        for fn in FUNCS:
+            try:
+                got = ("ret", getattr(utils, fn)(buf, x))
+            except Exception as e:  # noqa
+                got = ("raise", type(e).__name__)
+            n_reused += 1
+            if got != ("ret", oracle(fn, l, x)):
+                direct_bad.append((fn, list(l), x, got, oracle(fn, l, x)))
+        for fn in FUNCS:
+            try:
+                got = ("ret", getattr(utils, fn)(list(l), x))       # a temporary list, freed right after the call
+            except Exception as e:  # noqa
+                got = ("raise", type(e).__name__)
+            if got != ("ret", oracle(fn, l, x)):
+                direct_bad.append((fn, list(l), x, got, oracle(fn, l, x)))
     n_rand = 300 if tier == "quick" else 5000
     float_samples = []
     for l, x in random_scope(rng, n_rand):
@@ -210,7 +232,7 @@ def main(tier, seed):
         "rule": "exhaustive: every sorted list of length 0-7 over a 5-value domain x 11 probes (inside, between, outside) x 5 helpers; "
                 "plus random float lists with duplicates/-0.0/inf mapped to ranks for the model; non-trivial = list length >= 2; "
                 "each case compared implementation = documented meaning (linear-scan oracle) and implementation = Coq model",
-        "exhaustive": True, "exhaustive_lists_x_probes": n_exh, "random_float_cases": n_rand,
+        "exhaustive": True, "exhaustive_lists_x_probes": n_exh, "calls_on_one_refilled_list_object": n_reused, "random_float_cases": n_rand,
         "traces_validated_against_impl": evaluated,
         "samples": [{"function": c[0], "list": c[1], "probe": c[2], "implementation": c[3]} for c in cases[40000:40003]] + float_samples,
         "notes": ck.notes,
